@@ -189,6 +189,15 @@ def run(case):
     exp = np.asarray(o.value)
     if exp.ndim == 0:
         exp = np.full(L, exp)
+    if not same_array(d.value, exp, dtype=True) and exp.dtype.kind == "f" and kind in ("rl", "rl_derived") and d.value.shape == exp.shape:
+        # numpy has two answers for some float ufuncs (power): the scalar code path and the array loop can differ in the last bit.
+        # The run-length implementation applies the ufunc to run values, i.e. legitimately uses either; accept numpy's scalar-path answer too.
+        alt = attempt(lambda: np.array([uf(x, y) for x, y in (zip(dv, dw) if (kind == "rl" or case.get("side") == "R") else zip(dw, dv))]).astype(exp.dtype))
+        if alt.ok and alt.value.shape == exp.shape:
+            pick = np.where(d.value == alt.value, alt.value, exp)
+            if same_array(d.value, pick, dtype=True):
+                tags.append("numpy-scalar-fastpath")
+                exp = d.value
     if not same_array(d.value, exp, dtype=True):
         return violated("%s decodes to %s %s, numpy on the decoded operands gives %s %s" % (desc, d.value.dtype, short(d.value, 160), exp.dtype, short(exp, 160)), tags, got=d.value, expected=exp)
     CTX.tick("c16:canonical")
